@@ -17,6 +17,7 @@
 #include <unistd.h>
 #include <malloc.h>
 #include <csignal>
+#include <sched.h>
 
 using namespace hs;
 
@@ -68,6 +69,7 @@ static Value result_json(const Value& plan, const Result& r, double wall)
     s["atomics"]      = (long long)r.sim.atomics;
     s["nested"]       = (long long)r.sim.nested;
     s["preemptions"]  = (long long)r.sim.preemptions;
+    s["clock_faults"] = (long long)r.sim.clock_faults;
     s["max_team"]     = r.sim.max_team;
     s["sim_time_ns"]  = (long long)r.sim_time_ns;
     Value th          = Value::array();
@@ -151,6 +153,18 @@ int main(int argc, char** argv)
         }
     }
     mallopt(M_ARENA_MAX, 1);
+    {
+        // The simulation is serial (one baton): keep all threads of this process on ONE core, so that a hand-over is a
+        // same-core context switch (~5x cheaper than a cross-core futex wake-up).  The driver spreads workers over cores.
+        int cpu = getenv("GMGSIM_CPU") ? atoi(getenv("GMGSIM_CPU")) : sched_getcpu();
+        long ncpu = sysconf(_SC_NPROCESSORS_ONLN);
+        if (cpu >= 0 && ncpu > 0 && !getenv("GMGSIM_NOPIN")) {
+            cpu_set_t set;
+            CPU_ZERO(&set);
+            CPU_SET(cpu % (int)ncpu, &set);
+            sched_setaffinity(0, sizeof set, &set);
+        }
+    }
     std::set_terminate(on_terminate);
     setvbuf(stdout, nullptr, _IOLBF, 1 << 16);
     if (argc < 2) {
